@@ -16,7 +16,7 @@ func genC12(tier string, seed int64) (*Family, error) {
 		BothOrders: true,
 		PkgPath:    modPath + "/zz_verif/" + pkg,
 		Files:      map[string]string{},
-		Bounds:     map[string]interface{}{"rules_in_set": 3, "name_lists": "sub-lists and permutations of <= 3 existing names, one unknown name at every position, all-unknown, empty, wrong length for N-M"},
+		Bounds:     map[string]interface{}{"rules_in_set": 3, "name_lists": "sub-lists and permutations of <= 3 existing names, one unknown name at every position, all-unknown, empty, wrong length for N-M (also a count matching only the existing names)"},
 		Cfg:        interp.Config{MaxSteps: 3_000_000, TrackAllocs: []string{"*"}, TrackFields: []string{"engine.Gengine.returnResult"}},
 		Functions: []string{"ExecuteSelectedRules", "ExecuteSelectedRulesWithControl", "ExecuteSelectedRulesWithControlAsGivenSortedName", "ExecuteSelectedRulesWithControlAndStopTag",
 			"ExecuteSelectedRulesWithControlAndStopTagAsGivenSortedName", "ExecuteSelectedRulesConcurrent", "ExecuteSelectedRulesMixModel", "ExecuteSelectedRulesInverseMixModel",
@@ -105,7 +105,50 @@ func genC12(tier string, seed int64) (*Family, error) {
 				add(fmt.Sprintf("H_%s_L%d_wronglen", short, li), m.fn+":rejected", fmt.Sprintf("%s N=1 M=%d with %d names", m.fn, len(l), len(l)),
 					fmt.Sprintf("eng.%s(1, %d, rb, b, %s)", m.fn, len(l), names), "\tnothingRan(n, err)\n")
 			}
+			if k >= 2 && k < len(l) {
+				// an unknown name and a count that matches only the existing names: still rejected
+				add(fmt.Sprintf("H_%s_L%d_shortcount", short, li), m.fn+":rejected", fmt.Sprintf("%s N=1 M=%d with names %v", m.fn, k-1, l),
+					fmt.Sprintf("eng.%s(1, %d, rb, b, %s)", m.fn, k-1, names), "\tnothingRan(n, err)\n")
+			}
 		}
+	}
+	// the same selection again after the set changed under the same builder (a rule added, one replaced)
+	for _, d := range []struct{ id, call, oracle string }{
+		{"Sel", "eng.ExecuteSelectedRules(rb, names)", "checkSorted(tr, n, allTrue(n), s, f, true, err)"},
+		{"SelControl", "eng.ExecuteSelectedRulesWithControl(rb, b, names)", "checkSorted(tr, n, allTrue(n), s, f, b, err)"},
+		{"SelAsGiven", "eng.ExecuteSelectedRulesWithControlAsGivenSortedName(rb, b, names)", "checkAsGiven(tr, n, []int{2, 1, 0}, nil, f, b, err)"},
+		{"SelStopTag", "eng.ExecuteSelectedRulesWithControlAndStopTag(rb, b, &engine.Stag{}, names)", "checkSorted(tr, n, allTrue(n), s, f, b, err)"},
+		{"SelConcurrent", "eng.ExecuteSelectedRulesConcurrent(rb, names)", "for i := 0; i < n; i++ {\n\t\tvnd.Assert(countSince(mark, sname(i)) == 1, \"every named rule of the current set runs once\")\n\t}"},
+	} {
+		name := "Q_" + d.id + "_after_incremental"
+		fmt.Fprintf(&b, `
+// %s twice with equal names, the set extended and changed in between through the same builder
+func %s() {
+	n := 3
+	s := []int64{9, 5, vnd.Int64("s2")}
+	f := allFalse(n)
+	b := vnd.Bool("b")
+	_ = b
+	rb := build(2, s[:2], f)
+	eng := engine.NewGengine()
+	names := []string{"r2", "r1", "r0"}
+	_ = %s
+	vnd.Quiesce()
+	s[0] = vnd.Int64("s0new")
+	vnd.ExploreMapOrder(true)
+	must(rb.BuildRuleWithIncremental(oneRule(2, s[2], "")+oneRule(0, s[0], "")), "incremental build")
+	vnd.ExploreMapOrder(false)
+	mark := len(vnd.Trace())
+	err := %s
+	vnd.Event("ret")
+	vnd.Quiesce()
+	vnd.Reach("executed")
+	tr := vnd.Trace()[mark:]
+	_, _ = tr, err
+	%s
+}
+`, d.id, name, d.call, d.call, d.oracle)
+		fam.Instances = append(fam.Instances, Instance{Func: name, Stratum: "sequence:" + d.id, Desc: d.id + " repeated after an incremental build", Expect: []string{"executed"}})
 	}
 	// the pool's wrappers of the selected entry points (same oracles, data injected per request)
 	b.WriteString(`
